@@ -64,6 +64,27 @@ func (arithArea) Gen(r *hx.Rng, n int, _ string, emit func(string)) {
 			}
 			return gx.Dy(ival(r, wide), 0)
 		}
+		if !isF && op != "conv" && r.Chance(1, 6) {
+			// kind aw: Go int as it is — the model runs the same arithmetic at Int64 with wrap-around, so operands at
+			// the limits of the type and sums / differences / products that overflow ARE generated here
+			ext := []string{"9223372036854775807", "-9223372036854775808", "9223372036854775806", "-9223372036854775807",
+				"4611686018427387904", "-4611686018427387904", "4611686018427387903", "3037000500", "-3037000500", "2147483648",
+				"4294967296", "-1", "1", "0", "2", "-2", "3"}
+			cnt := map[string]int{"pmul": 3, "smul": 3, "pdiv": 3, "sdiv": 3, "pneg": 2, "pfloor": 2, "pceil": 2, "sfloor": 2, "sceil": 2, "peqw": 5}[op]
+			if cnt == 0 {
+				cnt = 4
+			}
+			w := make([]string, cnt)
+			for k := range w {
+				if r.Chance(2, 3) {
+					w[k] = hx.Pick(r, ext)
+				} else {
+					w[k] = gx.Dy(ival(r, true), 0)
+				}
+			}
+			emit("aw " + op + " " + strings.Join(w, " "))
+			continue
+		}
 		var w []string
 		switch op {
 		case "padd", "psub", "sadd", "ssub":
@@ -248,7 +269,7 @@ func (arithArea) Run(line string) string {
 		return "bad-op"
 	}
 	switch f[0] {
-	case "ai":
+	case "ai", "aw":
 		return arithRun(f[1], gx.Is(f[2:]), gx.JoinI)
 	case "af":
 		return arithRun(f[1], gx.Fs(f[2:]), gx.JoinF)
